@@ -75,5 +75,11 @@ LALRK = [
     G("q04", "abcdef", ["Sx"], [("Sx", "Ax a a a c"), ("Sx", "Bx a a a d"), ("Sx", "Cx a b"), ("Ax", "e"), ("Bx", "e"), ("Cx", "e")], lalr=4),
     G("q05", "abcz", ["Sx"], [("Sx", "Lx"), ("Lx", "Lx Ix"), ("Lx", "Ix"), ("Ix", "z Xx z a"), ("Ix", "z Yx z b"), ("Xx", "c"), ("Yx", "c")], lalr=2),     # the choice repeats along a list
     G("q06", "abcde", ["Sx"], [("Sx", "Ax a b"), ("Sx", "Bx a c"), ("Sx", "d Ax a c"), ("Sx", "d Bx a b"), ("Ax", "e"), ("Bx", "e")], lalr=2) | {"expect_conflict": True},   # the same pair in two contexts with swapped continuations: not LALR(2)
+    # the lookahead window crosses a nullable nonterminal that follows a terminal
+    G("q09", "abcen", ["Sx"], [("Sx", "Ax a Nx b"), ("Sx", "Bx a c"), ("Nx", ""), ("Nx", "n n"), ("Ax", "e"), ("Bx", "e")], lalr=2),
+    # two conflicts whose resolution automata have the same shape (same edge terminals, different continuations)
+    G("q10", "abcdef", ["Sx"], [("Sx", "Ax a b c"), ("Sx", "Bx a b d"), ("Sx", "Cx a b d a"), ("Sx", "Dx a b c a"), ("Ax", "e"), ("Bx", "e"), ("Cx", "f"), ("Dx", "f")], lalr=3) | {"cap": 8000},
+    # the window crosses the end of a rule: the token after 'a' belongs to the enclosing rule
+    G("q11", "acde", ["Sx"], [("Sx", "Ax Tx c"), ("Sx", "Bx a d"), ("Tx", "a"), ("Ax", "e"), ("Bx", "e")], lalr=3),
     G("q08", "abce", [("Sx", True)], [("Sx", "Ax a b"), ("Sx", "Bx a c"), ("Ax", "e"), ("Bx", "e")], lalr=2),                                            # no-eoi input
 ]
